@@ -1149,6 +1149,146 @@ def run_state_stream(ctx: Ctx, n: int) -> None:
 
 
 # --------------------------------------------------------------------------
+# component 5b: validation is a function of the input — no state carried from EARLIER CALLS (memo tables, caches
+# keyed by ==/hash-equal but differently printed keys such as 1 / True / 1.0, suggestion caches keyed by the bad key
+# alone).  A history of 2..4 inputs goes through every API variant of the long-lived module; each step is compared
+# with the same call made in a PRISTINE second instance of configs/validate.py (module state of a fresh process).
+# --------------------------------------------------------------------------
+
+_FRESH_N = [0]
+
+
+def _fresh_validate_module():
+    import importlib.util
+    import configs.validate as cv
+    _FRESH_N[0] += 1
+    spec = importlib.util.spec_from_file_location(f"configs._c14_fresh_{_FRESH_N[0]}", cv.__file__)
+    m = importlib.util.module_from_spec(spec)
+    spec.loader.exec_module(m)
+    return m
+
+
+def _all_apis(mod, cfg) -> list:
+    from clematis.errors import ConfigError
+    outs = []
+    for name, fn in (("plain", lambda c: mod.validate_config(c)), ("verbose", lambda c: mod.validate_config_verbose(c)),
+                     ("api", lambda c: mod.validate_config_api(c)), ("compat", lambda c: mod.validate_config(c, strict=True))):
+        try:
+            outs.append([name, "ok", enc_any(fn(copy.deepcopy(cfg)))])
+        except ConfigError as e:
+            outs.append([name, "config_error", str(e)])
+        except Exception as e:  # noqa: BLE001
+            outs.append([name, "escape", type(e).__name__])
+    return outs
+
+
+def enc_any(x: Any) -> Any:
+    """`enc` extended to tuples-with-lists results of the verbose / api forms (and anything else by repr)."""
+    try:
+        return enc(x)
+    except TypeError:
+        if isinstance(x, (list, tuple)):
+            return {"l": [enc_any(v) for v in x]}
+        if isinstance(x, dict):
+            return {"d": [[enc_any(k), enc_any(v)] for k, v in x.items()]}
+        return {"r": repr(x)}
+
+
+_EQ_FAMILIES = [[1, True, 1.0], [0, False, 0.0], [2, 2.0], [-1, -1.0]]
+_TYPO_KEYS = ["t5", "tt1", "decya", "enabeld", "k_surfac", "cach", "budgets_", "quantum", "weights", "x"]
+_HIST_SECTIONS = [(), ("t1",), ("t2",), ("t3",), ("t4",), ("graph",), ("scheduler",), ("perf",), ("t2", "quality"),
+                  ("scheduler", "budgets"), ("t1", "cache"), ("t2", "cache"), ("t4", "cache"), ("graph", "update")]
+
+
+def _wrap(path, leaf):
+    for k in reversed(path):
+        leaf = {k: leaf}
+    return leaf
+
+
+def history_pool() -> List[dict]:
+    pool = []
+    for sec in _HIST_SECTIONS:
+        for fam in _EQ_FAMILIES:
+            for k in fam:
+                pool.append(_wrap(sec, {k: 0}))
+        for k in _TYPO_KEYS:
+            pool.append(_wrap(sec, {k: 0}))
+    return pool
+
+
+def history_case(ctx: Ctx, c: dict, ref_memo: Optional[dict] = None) -> bool:
+    import configs.validate as cv
+    cfgs = [dec(x) for x in c["cfgs"]]
+    ok = True
+    for i, cfg in enumerate(cfgs):
+        key = json.dumps(c["cfgs"][i], sort_keys=True)
+        if ref_memo is not None and key in ref_memo:
+            want = ref_memo[key]
+        else:
+            want = _all_apis(_fresh_validate_module(), cfg)
+            if ref_memo is not None:
+                ref_memo[key] = want
+        got = _all_apis(cv, cfg)
+        if got != want:
+            ok = False
+            d = next((g, w) for g, w in zip(got, want) if g != w)
+            ctx.monitor_fail("valid_history", "result_independent_of_earlier_calls", c,
+                             f"step {i} of a {len(cfgs)}-call history in one process: {d[0][0]} returned {str(d[0][1:])[:240]!r}, "
+                             f"the same call in a pristine module instance returns {str(d[1][1:])[:240]!r}")
+            break
+    ctx.record_case("valid_history", c, [f"hist:{len(cfgs)}"] + ["hist:" + ("ok" if ok else "differs")])
+    return ok
+
+
+def run_history_stream(ctx: Ctx, n: int) -> None:
+    import importlib
+    import configs.validate as cv
+    rng = ctx.rng_for("history")
+    pool = [enc(x) for x in history_pool()]
+    memo: dict = {}
+    cases = list(ctx.load_corpus("valid_history"))
+    # every ordered pair inside one ==/hash-equal family and one section (the memo-by-raw-key shape) ...
+    per = len(_EQ_FAMILIES) and sum(len(f) for f in _EQ_FAMILIES) + len(_TYPO_KEYS)
+    for si in range(len(_HIST_SECTIONS)):
+        blk = pool[si * per:(si + 1) * per]
+        off = 0
+        for fam in _EQ_FAMILIES:
+            fam_items = blk[off:off + len(fam)]
+            off += len(fam)
+            for a in fam_items:
+                for b in fam_items:
+                    if a is not b:
+                        cases.append({"cfgs": [a, b]})
+    # ... the same bad key under two different sections (the memo-by-bad-key-alone shape) ...
+    for ki in range(per):
+        for _ in range(2):
+            s1, s2 = rng.sample(range(len(_HIST_SECTIONS)), 2)
+            cases.append({"cfgs": [pool[s1 * per + ki], pool[s2 * per + ki]]})
+    # ... and random histories of 2..4 calls mixing pool entries with generated valid configurations
+    for _ in range(n):
+        h = []
+        for _ in range(rng.randint(2, 4)):
+            if rng.random() < 0.7:
+                h.append(rng.choice(pool))
+            else:
+                cfg, _tags = gen_config(rng, valid_only=rng.random() < 0.5)
+                try:
+                    h.append(enc(cfg))
+                except TypeError:
+                    h.append(rng.choice(pool))
+        cases.append({"cfgs": h})
+    bad = 0
+    for c in cases:
+        if not history_case(ctx, c, memo):
+            bad += 1
+            importlib.reload(cv)   # drop whatever the history left behind before the next one
+            if bad >= 5:
+                break
+    ctx.extra["history_stream"] = {"histories": len(cases), "distinct_reference_inputs": len(memo)}
+
+
+# --------------------------------------------------------------------------
 # component 6: allowed keys the validator never looks at, with wrong-typed leaves
 # --------------------------------------------------------------------------
 
@@ -1295,6 +1435,7 @@ def run(ctx: Ctx) -> None:
     run_cli_stream(ctx, int(n_cli * scale))
     run_runnable_stream(ctx, int(n_run * scale))
     run_state_stream(ctx, int({"quick": 40, "thorough": 400, "search": 400}[tier] * scale))
+    run_history_stream(ctx, int({"quick": 150, "thorough": 3000, "search": 3000}[tier] * scale))
     run_unchecked_stream(ctx, 3 if tier == "quick" else len(BAD_LEAVES))
     run_null_sweep(ctx, all_worlds=(tier != "quick"))
     dup = T0["t"].get("dup_sites", {}) if (T0 := table()) else {}
@@ -1340,6 +1481,12 @@ def replay(ctx: Ctx, rec: dict) -> int:
         for f in ctx.failures:
             print(f"REPLAY monitor {f['monitor']} FAILS: {f['detail'][:300]}")
         print(f"REPLAY component=valid_state ok={ok}")
+        return 0 if ok else 1
+    if comp == "valid_history":
+        ok = history_case(ctx, case)
+        for f in ctx.failures:
+            print(f"REPLAY monitor {f['monitor']} FAILS: {f['detail'][:400]}")
+        print(f"REPLAY component=valid_history ok={ok}")
         return 0 if ok else 1
     if comp in ("valid_runnable", "valid_unchecked", "valid_nullsweep"):
         res = run_one_runnable(ctx, case)
